@@ -58,7 +58,7 @@ void ReportAndExit(const std::string & cls, const std::string & detail)
 {
    std::string d = detail + " [decisions so far: " + U(g_stats.steps) + ", threads:";
    for (auto t : g_threads) {static const char * sn[] = {"runnable", "blocked-on-mutex", "blocked-on-cond", "blocked-on-join", "blocked-on-poll", "sleeping", "finished", "waiting-for-all", "waiting-for-harness-condition"}; d += " t" + I(t->id) + "=" + sn[t->st];}
-   d += "]";
+   d += "; schedule (thread chosen at each decision, A = clock advanced to the earliest deadline): " + ((g_decisions.size() > 1500) ? ("..." + g_decisions.substr(g_decisions.size()-1500)) : g_decisions) + "]";
    ExitWithViolation(cls, d, g_hash.h);
 }
 
